@@ -17,7 +17,7 @@ PROP = {
     "streams": [{"name": "c05", "shards": {"quick": 4, "thorough": 16}},
                 {"name": "c05.grid", "shards": {"quick": 8, "thorough": 16}}],
     "modules": ["GbVerif.Model.Interp", "GbVerif.Model.Cpu", "GbVerif.Model.Op", "GbVerif.Spec.SM83", "GbVerif.Proofs.Enum", "GbVerif.Proofs.Sm83Bits", "GbVerif.Proofs.Sm83Abs", "GbVerif.Proofs.Sm83Alu", "GbVerif.Proofs.Sm83Rot", "GbVerif.Proofs.Sm83Misc", "GbVerif.Proofs.Sm83Rel", "GbVerif.Proofs.Sm83Cls1", "GbVerif.Proofs.Sm83Cls2", "GbVerif.Proofs.Sm83Cls3", "GbVerif.Proofs.Sm83Leaf", "GbVerif.Proofs.Sm83Main0", "GbVerif.Proofs.Sm83Main1", "GbVerif.Proofs.Sm83Main2", "GbVerif.Proofs.Sm83Main3", "GbVerif.Proofs.Sm83Main4", "GbVerif.Proofs.Sm83Main5", "GbVerif.Proofs.Sm83Main6", "GbVerif.Proofs.Sm83Main7", "GbVerif.Proofs.Sm83MainCB0", "GbVerif.Proofs.Sm83MainCB1", "GbVerif.Proofs.Sm83MainCB2", "GbVerif.Proofs.Sm83MainCB3", "GbVerif.Proofs.Sm83MainCB4", "GbVerif.Proofs.Sm83MainCB5", "GbVerif.Proofs.Sm83MainCB6", "GbVerif.Proofs.Sm83MainCB7", "GbVerif.Proofs.Sm83Main"],
-    "rule": "c05.grid enumerates small operand domains completely: every A x every flag nibble for DAA, CPL, SCF, CCF, the accumulator rotates, INC/DEC A, CB rotates/shifts/BIT/RES/SET on A, POP AF and PUSH AF; every A x 24 edge operands (thorough: all 256) x carry-in for the 8 ALU operations in register, immediate and (HL) form. c05: per defined encoding (245 + 256 CB) 120 (thorough 4000) generated states: A/operand bytes biased to nibble/byte carries and BCD edges, "
+    "rule": "c05.grid enumerates small operand domains completely: ADD SP,e and LD HL,SP+e for every offset byte x 14 edge stack pointers, JR / JR cc for every displacement x 5 program counters x every flag nibble; every A x every flag nibble for DAA, CPL, SCF, CCF, the accumulator rotates, INC/DEC A, CB rotates/shifts/BIT/RES/SET on A, POP AF and PUSH AF; every A x 24 edge operands (thorough: all 256) x carry-in for the 8 ALU operations in register, immediate and (HL) form. c05: per defined encoding (245 + 256 CB) 120 (thorough 4000) generated states: A/operand bytes biased to nibble/byte carries and BCD edges, "
             "all flag nibbles, pointer registers on every region boundary and inside I/O, code placed in ROM bank 0, the switchable bank, WRAM "
             "or HRAM; every case is distinct by construction of the PRNG stream; non-trivial = the instruction executed",
     "assumptions": ["theorem hypothesis WF r: the register file entering the instruction has every pair < 65536 and F's low nibble zero "
